@@ -299,6 +299,14 @@ GOLDEN = [
     {"cap0": DEFAULT_CAP, "threads": True, "label": "golden-retention", "prog": [
         ["open", 0, 1], ["op", 0, [], ["set", "x", 1]], ["op", 0, [], ["update", {"x": True}]], ["op", 0, [], ["get"]],
         ["op", 0, [], ["reset", {"x": 1.0}]], ["op", 0, [], ["get"]], ["op", 0, [], ["set", "x", 1.0]], ["op", 0, [], ["get"]]]},
+    # with a second (stale) collection and a small capacity the writer does not read its own write back
+    # (witness of C05_read_own_writes_refuted; same defect as known finding 1)
+    {"cap0": DEFAULT_CAP, "threads": True, "label": "golden-own-write-lost", "prog": [
+        ["open", 0, 1], ["open", 1, 1], ["op", 0, [], ["clear"]], ["enter", 3], ["op", 0, [], ["get"]], ["op", 1, [], ["get"]],
+        ["op", 0, [], ["set", "x", 1]], ["op", 0, [], ["get"]], ["exit"], ["op", 0, [], ["get"]], ["op", 1, [], ["get"]]]},
+    # update() keeps a value that compares == (witness of C05_doc_faithful_typed_refuted; Python-equal, no violation)
+    {"cap0": DEFAULT_CAP, "threads": True, "label": "golden-typed", "prog": [
+        ["open", 0, 1], ["op", 0, [], ["set", "x", 1]], ["op", 0, [], ["update", {"x": True}]], ["op", 0, [], ["get"]]]},
     # None cannot replace a container through update()/reset()/reload (known finding 2)
     {"cap0": DEFAULT_CAP, "threads": True, "label": "golden-none-over-container", "prog": [
         ["open", 0, 1], ["op", 0, [], ["set", "c", {"x": 1}]], ["op", 0, [], ["update", {"c": None}]], ["op", 0, [], ["get"]]]},
